@@ -4,7 +4,7 @@ package actionlint
 
 // C15 — ignore patterns are an exact filter; results do not depend on the cwd.
 //
-// Complete product: 3 workflows (0 / 2 / 4 diagnostics with distinct messages) x 8 CLI -ignore
+// Complete product: 3 workflows (0 / 2 / 4 diagnostics with distinct messages) x 12 CLI -ignore
 // sets x 4 `paths` globs x 4 config pattern sets x cwd in {root, parent, nested, unrelated} x path
 // spelling in {relative, ./relative, absolute}, each through Command.Main. Oracle: reference
 // filter (set difference in unchanged order; a paths entry applies iff its glob matches the path
@@ -28,6 +28,9 @@ var c15Workflows = map[string]string{
 
 var c15CLISets = [][]string{
 	nil, {"matches nothing at all"}, {"undefined variable"}, {"undefined variable", "shell name"}, {".*"}, {"^shell name \"nosuchshell\" is invalid"}, {"label \"nosuchlabel\"", "bogusinput"}, {"(?i)UNDEFINED VARIABLE"},
+	// patterns are independent of each other: an inline flag, a quotation or a group of one must
+	// not reach the next
+	{"(?i)SHELL NAME", "UNDEFINED VARIABLE"}, {"\\Qshell name", "undefined variable"}, {"(?U)shell.*name", "undefined.*variable$"}, {"^shell name|zzz", "variable"},
 }
 
 type c15Glob struct {
@@ -97,7 +100,7 @@ func c15MainIn(cwd string, args []string, stdin string) (int, string, string) {
 func TestVerifC15(t *testing.T) {
 	r := vNewReport("C15")
 	defer r.Write(t)
-	r.Extra["rule"] = "3 workflows x 8 -ignore sets x 4 paths globs x 4 config ignore sets x {no further entry, a further matching entry, a further non-matching entry} x 4 working directories x 5 path spellings (relative, ./relative, absolute; piped through stdin with a relative / absolute -stdin-filename) through Command.Main (-oneline -no-color), complete product; oracle: unfiltered list minus diagnostics matched by a CLI pattern or by a config pattern whose glob matches the root-relative path, order preserved, exit 1 iff non-empty; plus exit-status rows (invalid flag 2; unreadable file, bad config, bad -ignore regexp, bad config regexp 3). class = (remaining diagnostics, exit status); non-trivial = something is filtered"
+	r.Extra["rule"] = "3 workflows x 12 -ignore sets x 4 paths globs x 4 config ignore sets x {no further entry, a further matching entry, a further non-matching entry} x 4 working directories x 5 path spellings (relative, ./relative, absolute; piped through stdin with a relative / absolute -stdin-filename) through Command.Main (-oneline -no-color), complete product; oracle: unfiltered list minus diagnostics matched by a CLI pattern or by a config pattern whose glob matches the root-relative path, order preserved, exit 1 iff non-empty; plus exit-status rows (invalid flag 2; unreadable file, bad config, bad -ignore regexp, bad config regexp 3). class = (remaining diagnostics, exit status); non-trivial = something is filtered"
 	r.Extra["assumptions"] = []string{"glob match bits are part of the scenario table (written by hand for 4 globs x 3 files)", "working directory is process-global: cases run sequentially inside each worker process"}
 	orig, _ := os.Getwd()
 	defer os.Chdir(orig)
